@@ -434,7 +434,7 @@ def _ie(*terms):
 
 
 @st.composite
-def case_affine(draw, max_extent=6, coeffs=(1, 1, 2, 2, 3, 4), allow_partition=True, allow_reverse=False):
+def case_affine(draw, max_extent=6, coeffs=(1, 1, 2, 2, 3, 4), allow_partition=True, allow_reverse=False, force_levels=None):
     """
     templates: conv1d (stride/dilation), conv2d, three-variable sum, subsampling, renaming;
     optional extra plain ranks (batch N in I and O, channel M in F and O, reduction C in I and F).
@@ -571,8 +571,8 @@ def case_affine(draw, max_extent=6, coeffs=(1, 1, 2, 2, 3, 4), allow_partition=T
     # ---- partitioning of the output index rank with the input rank following
     part_levels = 0
     reverse = False
-    if allow_partition and draw(st.integers(0, 2)) <= (1 if allow_reverse else 0):
-        part_levels = draw(st.sampled_from([1, 1, 2]))
+    if force_levels or (allow_partition and draw(st.integers(0, 2)) <= (1 if allow_reverse else 0)):
+        part_levels = force_levels or draw(st.sampled_from([1, 1, 2]))
         dirs = []
         for i in range(part_levels):
             kind = draw(st.sampled_from(["uniform_shape", "uniform_shape", "nway_shape"]))
